@@ -67,6 +67,9 @@ func c12Sig(c *c12Case, clause string, drawUsed bool) string {
 	if c.RTTs > 0 {
 		return fmt.Sprintf("%s/%s/%s/%s/clean-%d-rtt/draw=%s", c.Part, clause, c.Profile, c12PathOf(c.Path).Name, c.RTTs, d)
 	}
+	if c.Raise > 0 {
+		return fmt.Sprintf("%s/%s/%s/%s/prefix=%s/window=%s,recovery=%q,raise=+%d/seq=%s", c.Part, clause, c.Profile, c12PathOf(c.Path).Name, c12SeqNames(c.Prefix), c.ForceWin, c.ForceRec, c.Raise, c12SeqNames(c.Seq))
+	}
 	return fmt.Sprintf("%s/%s/%s/%s/%sseq=%s/draw=%s", c.Part, clause, c.Profile, c12PathOf(c.Path).Name, pre, c12SeqNames(c.Seq), d)
 }
 
@@ -120,6 +123,8 @@ func (a *c12Agg) observe(p *evidence.Part, c *c12Case, r *c12Result) {
 	p.Count("pto_probes", s.ptos)
 	p.Count("datagram_size_raises", s.mtuRaises)
 	p.Count("tail_drops", s.tailDrops)
+	p.Count("events_with_window_at_four_datagrams", s.atFloor)
+	p.Count("events_with_window_within_one_datagram_of_max", s.atCeil)
 	if r.drawUsed {
 		p.Count("traces_consuming_cycle_offset_draw", 1)
 	}
@@ -255,6 +260,63 @@ func c12LossFree(a *c12Agg, item *int64) {
 	}
 }
 
+// c12RaiseStates: datagram-size raise reported while the window fields sit on the boundary values
+// the code compares against (old minimum, old initial window, maximum), in every mode the
+// prefixes reach.
+func c12RaiseStates(a *c12Agg, item *int64) {
+	sh := a.sh
+	env := sh.Env()
+	p := sh.Part("raise-at-boundary-windows", "enum")
+	prefixes := [][]int{{}, {c12EvClean12}, {c12EvClean12, c12EvClean12}, {c12EvClean12, c12EvClean12, c12EvLoss3}, {c12EvClean12, c12EvClean12, c12EvBurst}, {c12EvClean12, c12EvIdle, c12EvClean1}}
+	raises := []int64{1, 52, 148, 252}
+	paths := []int{0, 1, 3}
+	var pn, names []string
+	for _, pre := range prefixes {
+		pn = append(pn, c12SeqNames(pre))
+	}
+	for _, pi := range paths {
+		names = append(names, c12PathOf(pi).Name)
+	}
+	p.Alphabet = map[string]any{"profiles": c12Profiles, "paths": names, "prefixes": pn, "congestionWindow_set_to": c12WinLabels, "recoveryWindow_set_to": append([]string{"unchanged"}, c12RecLabels[1:]...),
+		"datagram_size_raised_by": raises, "then": "oracle right after SetMaxDatagramSize, then 1 RTT clean"}
+	p.Note("window fields are written by the harness (state injection, as the upstream tests do): the boundary values min/initial/max the code switches on are not all reached by simulated traces")
+	for _, prof := range c12Profiles {
+		for _, pi := range paths {
+			for _, pre := range prefixes {
+				for _, wl := range c12WinLabels {
+					for _, rl := range c12RecLabels {
+						for _, ra := range raises {
+							*item++
+							if !env.Mine(*item) {
+								continue
+							}
+							c := c12Case{Part: p.Name, Profile: string(prof), Path: pi, MaxPkts: c12RealMaxPkts, Prefix: pre, Seq: []int{c12EvClean1}, Draw: c12Draws[0], ForceWin: wl, ForceRec: rl, Raise: ra}
+							r := c12Run(&c)
+							a.observe(p, &c, &r)
+							if p.Evaluations%499 == 1 {
+								p.Sample(c)
+							}
+							if r.infra != "" {
+								sh.InfraError("%s: %s", c12Sig(&c, "infra", r.drawUsed), r.infra)
+								return
+							}
+							if r.clause != "" {
+								key := fmt.Sprintf("%s|%s|%s", p.Name, r.clause, wl)
+								if a.reported[key] {
+									p.Count("further_violating_traces_not_listed", 1)
+									continue
+								}
+								a.reported[key] = true
+								sh.Violate(p.Name, c12Sig(&c, r.clause, r.drawUsed), r.detail, &c)
+							}
+						}
+					}
+				}
+			}
+		}
+	}
+}
+
 func c12Spaces(thorough bool) []*c12Space {
 	all := []int{0, 1, 2, 3}
 	if thorough {
@@ -262,12 +324,14 @@ func c12Spaces(thorough bool) []*c12Space {
 			{part: "macro-sequences", paths: all, maxPkts: c12RealMaxPkts, depth: 5, drawsTo: 3},
 			{part: "small-max-window", paths: []int{1, 2}, maxPkts: 100, depth: 4, drawsTo: 3},
 			{part: "long-fat-real-max-window", paths: []int{-1}, maxPkts: c12RealMaxPkts, prefix: []int{c12EvClean12}, depth: 1, drawsTo: 1},
+			{part: "tiny-bdp", paths: []int{-2}, maxPkts: c12RealMaxPkts, depth: 4, drawsTo: 3},
 		}
 	}
 	return []*c12Space{
 		{part: "macro-sequences", paths: all, maxPkts: c12RealMaxPkts, depth: 4, drawsTo: 2},
 		{part: "small-max-window", paths: []int{1, 2}, maxPkts: 100, depth: 3, drawsTo: 2},
 		{part: "long-fat-real-max-window", paths: []int{-1}, maxPkts: c12RealMaxPkts, prefix: []int{c12EvClean12}, depth: 1, drawsTo: 0},
+		{part: "tiny-bdp", paths: []int{-2}, maxPkts: c12RealMaxPkts, depth: 3, drawsTo: 2},
 	}
 }
 
@@ -281,6 +345,7 @@ func c12Enumerate(sh *evidence.Shard) {
 	var item int64
 	if infra := c12Owned(func() {
 		c12LossFree(a, &item)
+		c12RaiseStates(a, &item)
 		// cheap directed spaces first, the big one last (it is the one a deadline may cut)
 		sps := c12Spaces(sh.Env().Thorough())
 		for i := len(sps) - 1; i >= 0; i-- {
@@ -293,6 +358,9 @@ func c12Enumerate(sh *evidence.Shard) {
 }
 
 func c12Replay(part string, raw json.RawMessage) (bool, bool, string) {
+	if part == "seed" {
+		return false, false, ""
+	}
 	var c c12Case
 	if err := json.Unmarshal(raw, &c); err != nil {
 		return true, false, err.Error()
